@@ -118,7 +118,7 @@ class DataboxWorld(World):
             "actors": rng.randint(1, 2) if tier == "quick" else rng.randint(1, 3),
             "paths": rng.randint(1, 3),
             "steps": rng.choice([15, 25, 40]) if tier == "quick" else rng.choice([15, 25, 40, 80, 120]),
-            "nan_density": rng.choice([0.0, 0.1, 0.3, 0.5]),
+            "nan_density": rng.choice([0.0, 0.1, 0.3, 0.5]), "inf_density": rng.choice([0.0, 0.0, 0.0, 0.04, 0.1]), "p_eintr": rng.choice([0.0, 0.0, 0.2, 0.5]),
             "max_len": rng.choice([2, 5, 9]) if tier == "quick" else rng.choice([2, 5, 9, 20]),
             "max_nv": rng.choice([1, 2, 3]) if tier == "quick" else rng.choice([1, 2, 3, 4]),
             "max_items": rng.choice([3, 5, 8]) if tier == "quick" else rng.choice([3, 5, 8, 12]),
@@ -243,6 +243,9 @@ class DataboxWorld(World):
         if val.random() < self.cfg["nan_density"]:
             return None
         r = val.random()
+        if r < self.cfg.get("inf_density", 0.0):
+            # infinite observations are values like any other: not missing, not to be filled, written and read as they are
+            return float("inf") if val.random() < 0.5 else float("-inf")
         if r < 0.6:
             return val.choice(VALUE_POOL)
         if r < 0.8:
@@ -638,6 +641,8 @@ class DataboxWorld(World):
             plan["short_write"] = flt.choice([1, 3, 7, 20])
         if flt.random() < cfg["p_short"]:
             plan["short_read"] = flt.choice([1, 2, 5, 13])
+        if flt.random() < cfg.get("p_eintr", 0.0):
+            plan["eintr"] = flt.choice([1, 2, 3, 7])      # every n-th raw read/write is interrupted once before it transfers anything
         if cfg["fault_kinds"] and flt.random() < cfg["p_fault"]:
             if reading:
                 kinds = [k for k in cfg["fault_kinds"] if k.startswith("open") or k in ("read_eio", "close_eio")]
@@ -694,6 +699,13 @@ class DataboxWorld(World):
         args = {"box": b, "path": self._gen_path(rng), "names": names, "span": span,
                 "description_row": rng.random() < 0.5, "round": rng.choice([12, 12, None, 2, 6]),
                 "nan_str": rng.choice(["", "", "nan", "NaN"]), "plan": self._gen_fault_plan(flt)}
+        if rng.random() < 0.12:
+            # a selection that leaves nothing to export, now and then asked to be an error: such an export is
+            # rejected before anything is written, so what an earlier export left under the same path stays
+            args["names"] = sorted(n for n, x in self.bind[b].items() if x[0] != "s")[:2] + (["missing_zz"] if rng.random() < 0.5 else [])
+            args["when_empty"] = rng.choice(["error", "error", "silent", "warning"])
+            if self.disk and rng.random() < 0.7:
+                args["path"] = rng.choice(sorted(self.disk))
         return {"op": "export", "args": args}
 
     def _gen_import(self, actor, rng, val, flt):
@@ -763,14 +775,19 @@ class DataboxWorld(World):
         if d is None:
             return None
         r = rng.random()
+        opts = {}
+        if rng.random() < 0.3:
+            opts["trim"] = False
+        if rng.random() < 0.2:
+            opts["span"] = "full"
         if r < 0.5:
-            return {"op": "slate_to_box", "out": [self._name()], "args": {"d": d, "target": None}}
+            return {"op": "slate_to_box", "out": [self._name()], "args": {"d": d, "target": None, "opts": opts}}
         if r < 0.75:
-            return {"op": "slate_to_box", "out": [self._name()], "args": {"d": d, "target": "empty"}}
+            return {"op": "slate_to_box", "out": [self._name()], "args": {"d": d, "target": "empty", "opts": opts}}
         b = self._own_box(rng, actor)
         if b is None:
             return None
-        return {"op": "slate_to_box", "args": {"d": d, "target": b}}
+        return {"op": "slate_to_box", "args": {"d": d, "target": b, "opts": opts}}
 
     def _gen_slate_rescale(self, actor, rng, val, flt):
         d = self._pick_slate(rng)
@@ -1547,7 +1564,7 @@ class DataboxWorld(World):
         return out
 
     def _export_kwargs(self, a):
-        kw = {"description_row": a["description_row"], "round": a["round"], "nan_str": a["nan_str"], "when_empty": "silent"}
+        kw = {"description_row": a["description_row"], "round": a["round"], "nan_str": a["nan_str"], "when_empty": a.get("when_empty") or "silent"}
         if a["names"] is not None:
             kw["names"] = list(a["names"])
         span = a["span"]
@@ -1589,11 +1606,30 @@ class DataboxWorld(World):
         kw = self._export_kwargs(a)
         pred = self._export_predicate(rec, a)
         status, r, fired = self._run("export", pred, lambda: box.to_csv_file(path, **kw), plan=plan)
-        faulted = any(k not in ("short_write", "short_read") for k in fired)
+        faulted = any(k not in ("short_write", "short_read", "eintr") for k in fired)
         # no other path may change, whatever happened
         for p, b in before.items():
             if p != path and bytes(self.fs.files.get(p, b"")) != b:
                 raise Violation("isolation", "export", pred, "", f"export to {path} changed the content of {p}")
+        selected = list(self.bind[h]) if a["names"] is None else [n for n in a["names"] if n in self.bind[h]]
+        if a.get("when_empty") == "error" and not any(self.bind[h][n][0] == "s" for n in selected):
+            # nothing to export and the caller asked for that to be an error: documented to raise, and an export that
+            # was refused has written nothing - the file an earlier export completed is still that file
+            self.probes["empty_export_rejected"] += 1
+            if status == "ok":
+                raise Violation("refine", "export.empty", pred, "", "no series was selected for export and when_empty='error' was given, but to_csv_file returned normally")
+            if status == "raised" and not faulted:
+                now = self.fs.files.get(path)
+                was = before.get(path)
+                if (now is None) != (was is None) or (now is not None and bytes(now) != was):
+                    if had is not None:
+                        self.disk[path] = "torn"
+                    raise Violation("durability", "export.empty", pred, "", f"an export that was refused ({type(r).__name__}: nothing to export) changed {path}: "
+                                    f"{'absent' if was is None else str(len(was)) + ' bytes'} before, {'absent' if now is None else str(len(bytes(now))) + ' bytes'} after")
+                self._check_heap("export.empty", pred)
+                self._check_bindings_unchanged("export.empty", pred)
+                self._rederive()
+                return "rejected"
         if status == "crashed":
             self.probes["crash_during_export"] += 1
             actor = self.owner[h]
@@ -1701,7 +1737,7 @@ class DataboxWorld(World):
             pred = ",".join(x for x in (pred, "start_period_only") if x)
             self.probes["import_start_period_only"] += 1
         status, r, fired = self._run("import", pred, lambda: ir.Databox.from_csv_file(path, **kw), plan=plan)
-        faulted = any(k not in ("short_write", "short_read") for k in fired)
+        faulted = any(k not in ("short_write", "short_read", "eintr") for k in fired)
         self.probes["import_opens_total"] += self.fs.totals["open"] - opens_before
         self._check_heap("import", pred)
         self._check_bindings_unchanged("import", pred)
@@ -1859,15 +1895,18 @@ class DataboxWorld(World):
         real, exp, _ = self.slates[d]
         target = a.get("target")
         want = self._slate_want(exp)
+        opts = dict(a.get("opts") or {})
+        if opts.get("trim") is False:
+            self.probes["slate_to_box_untrimmed"] += 1
         if target is None:
-            status, r, _ = self._run("slate_to_box", "", lambda: real.to_databox())
+            status, r, _ = self._run("slate_to_box", "", lambda: real.to_databox(**opts))
             self._crash_guard("slate_to_box", "", status, r)
             recv = None
         else:
             # the caller's databox (a new, still empty one or an existing one) is filled in place and returned
             tbox = ir.Databox() if target == "empty" else self.boxes[target]
             opname = "slate_to_box." + ("empty_target" if target == "empty" else "existing_target")
-            status, r, _ = self._run(opname, "", lambda: real.to_databox(target_db=tbox))
+            status, r, _ = self._run(opname, "", lambda: real.to_databox(target_db=tbox, **opts))
             self._crash_guard(opname, "", status, r)
             if r is not tbox:
                 raise Violation("refine", opname, "", "", "to_databox(target_db=box) returned another object than the databox it was given")
@@ -2000,6 +2039,10 @@ def simplifiers(step):
             s = copy.deepcopy(step)
             s["args"]["plan"]["short_write"] = None
             s["args"]["plan"]["short_read"] = None
+            yield s
+        if p.get("eintr"):
+            s = copy.deepcopy(step)
+            s["args"]["plan"]["eintr"] = None
             yield s
     if step["op"] == "new_box" and len(a["items"]) > 1:
         for n in list(a["items"]):
